@@ -198,11 +198,22 @@ func (r *Run) sink(src any, ev string, kv ...int) {
 	if !ok {
 		return
 	}
+	// the resend timeout in force when the syncer is consulted (the wait
+	// after a resend lasts three of them, the goroutine an expected ACK
+	// starts one): read from the connection's own TimeoutManager
+	rt := func() int {
+		if tm, ok := src.(*gbn.TimeoutManager); ok {
+			return int(tm.GetResendTimeout() / time.Millisecond)
+		}
+		return -1
+	}
 	switch ev {
+	case "syncWait":
+		r.Rec.Emit(ev, "ep", ep, "rt", rt())
 	case "add":
 		r.Rec.Emit(ev, "ep", ep, "seq", kv[0], "top", kv[1])
 	case "ack":
-		r.Rec.Emit(ev, "ep", ep, "seq", kv[0], "valid", kv[1], "base", kv[2])
+		r.Rec.Emit(ev, "ep", ep, "seq", kv[0], "valid", kv[1], "base", kv[2], "rt", rt())
 	case "ackEmpty":
 		r.Rec.Emit(ev, "ep", ep, "seq", kv[0])
 	case "nack":
